@@ -65,6 +65,18 @@ func InvMetadata(m modeltypes.Metadata) bool {
 		len(m.Commits) <= len(m.Orders))
 }
 
+// InvExpiredData: a model is scheduled for deletion once - no data id twice in one height's list (every writer
+// adds an id only after removing the model's previous entry; DeleteMeta and RollbackMeta unschedule).
+func InvExpiredData(e modeltypes.ExpiredData) bool {
+	r := true
+	for i := range e.Data {
+		for j := 0; j < i; j++ {
+			r = sym.And(r, e.Data[i] != e.Data[j])
+		}
+	}
+	return r
+}
+
 func InvPaymentAddress(p didtypes.PaymentAddress) bool { return validAddr(p.Address) }
 
 func InvDidBalances(b didtypes.DidBalances) bool { return nonNegCoin(b.Balance) }
@@ -79,6 +91,7 @@ func declareInvariants() {
 	sym.DeclareInv(&nodetypes.Node{}, InvNode)
 	sym.DeclareInv(&markettypes.Worker{}, InvWorker)
 	sym.DeclareInv(&modeltypes.Metadata{}, InvMetadata)
+	sym.DeclareInv(&modeltypes.ExpiredData{}, InvExpiredData)
 	sym.DeclareInv(&didtypes.PaymentAddress{}, InvPaymentAddress)
 	sym.DeclareInv(&didtypes.DidBalances{}, InvDidBalances)
 }
